@@ -1,14 +1,406 @@
+// C33 correspondence: real spec/acme.Normalize (+ removeSpace via shim), EncodeClientToken,
+// GenerateCustomRecord / GenerateManagedRecord against the Lean model and the statement-level oracle.
+// Strings travel as comma-separated decimal code points of []rune(s) ("-" = empty).
+//
+//	rs <zone>                                         => <removeSpace(zone)>
+//	norm <zone> <removeSpace(zone)> isip=<net.ParseIP ok> q=<certmagic qualifies> ascii=<idna.ToASCII | none>
+//	     ip=<b> wild=<b> local=<b> fix=<b>            => ok:<name> | err:<ip|qualify|wildcard|idna|chars>
+//	     (isip/q/ascii: library results on the real trimmed string = model inputs; ip/wild/local: category of the
+//	      input decided here independently of the code under test; fix: the input is an already accepted output)
+//	rec <zone> <delegation> <token> <sha224(token)> <IsFqdn zone> <IsFqdn delegation> => <name>|<content>
+//	managed <zone> <delegation> <IsFqdn zone> <IsFqdn delegation>                    => <name>|<content>
+//	pair <delegation> <IsFqdn delegation> <token1> <sha224> <token2> <sha224>         => <content1>|<content2>
 package main
 
 import (
-	"fmt"
+	"crypto/sha256"
+	"net"
+	"strconv"
+	"strings"
+	"unicode"
+	"unicode/utf8"
 
+	"github.com/caddyserver/certmagic"
+	"github.com/miekg/dns"
 	"go.miragespace.co/specter/spec/acme"
+	"golang.org/x/net/idna"
+	"verif/harness/hlib"
 )
 
-func main() {
-	for _, z := range []string{"8.8.8.8", "1.1.1.1", "10.0.0.1", "2001:db8::1", "[2001:db8::1]", "localhost", "foo.local", "Example.com", "example.com.", "8.8.8.8:80", "0x8.8.8.8", "8.8.8", "intranet", "foo.internal", "a.home.arpa", "xn--a.com", "a_b.com", "８.８.８.８", "1.2.3.４"} {
-		s, err := acme.Normalize(z)
-		fmt.Printf("%q => %q %v\n", z, s, err)
+var r *hlib.Run
+var rng *hlib.Rng
+
+func runes(s string) string {
+	rs := []rune(s)
+	if len(rs) == 0 {
+		return "-"
 	}
+	var b strings.Builder
+	for i, c := range rs {
+		if i > 0 {
+			b.WriteByte(',')
+		}
+		b.WriteString(strconv.Itoa(int(c)))
+	}
+	return b.String()
+}
+
+func unRunes(t string) string {
+	if t == "-" {
+		return ""
+	}
+	var b strings.Builder
+	for _, p := range strings.Split(t, ",") {
+		v, _ := strconv.Atoi(p)
+		b.WriteRune(rune(v))
+	}
+	return b.String()
+}
+
+func doRS(z string) {
+	r.Emit("rs "+runes(z), runes(acme.VerifRemoveSpace(z)))
+	r.Case("rs" + z)
+	r.Count("rs")
+}
+
+func classify(err error) string {
+	m := err.Error()
+	for _, p := range [][2]string{{"cannot be an IP", "ip"}, {"invalid zone for acme", "qualify"}, {"wildcard zone", "wildcard"},
+		{"error converting", "idna"}, {"invalid dns characters", "chars"}} {
+		if strings.Contains(m, p[0]) {
+			return p[1]
+		}
+	}
+	return "other"
+}
+
+// categories decided independently of the code under test
+func ownTrim(z string) string {
+	return strings.Map(func(c rune) rune {
+		if unicode.IsSpace(c) {
+			return -1
+		}
+		return c
+	}, z)
+}
+
+func isLocal(t string) bool {
+	t = strings.ToLower(strings.TrimRight(t, "."))
+	return t == "localhost" || strings.HasSuffix(t, ".localhost") || strings.HasSuffix(t, ".local")
+}
+
+// returns the accepted name ("" if rejected)
+func doNorm(kind, z string, fix bool) string {
+	trimmed := acme.VerifRemoveSpace(z)
+	ascii := "none"
+	if a, err := idna.ToASCII(trimmed); err == nil {
+		ascii = runes(a)
+	}
+	own := ownTrim(z)
+	res, out := "", ""
+	func() {
+		defer func() {
+			if recover() != nil {
+				res = "panic"
+			}
+		}()
+		s, err := acme.Normalize(z)
+		if err != nil {
+			res = "err:" + classify(err)
+		} else {
+			res, out = "ok:"+runes(s), s
+		}
+	}()
+	r.Emit(strings.Join([]string{"norm", runes(z), runes(trimmed), "isip=" + hlib.B(net.ParseIP(trimmed) != nil),
+		"q=" + hlib.B(certmagic.SubjectQualifiesForPublicCert(trimmed)), "ascii=" + ascii,
+		"ip=" + hlib.B(net.ParseIP(own) != nil), "wild=" + hlib.B(strings.Contains(own, "*")), "local=" + hlib.B(isLocal(own)),
+		"fix=" + hlib.B(fix)}, " "), res)
+	r.Case("n" + z)
+	r.Count("norm:" + kind + ":" + strings.SplitN(res, ":", 2)[0] + func() string {
+		if strings.HasPrefix(res, "err:") {
+			return res[3:]
+		}
+		return ""
+	}())
+	return out
+}
+
+var spaces = []rune{9, 10, 11, 12, 13, 32, 0x85, 0xA0, 0x1680, 0x2000, 0x2001, 0x2005, 0x200a, 0x2028, 0x2029, 0x202f, 0x205f, 0x3000}
+var notSpaces = []rune{0x200b, 0x200c, 0x200d, 0x2060, 0xfeff, 0x180e, 0x1c, 0x1f, 0x7f, 0xad}
+
+var asciiLabels = []string{"a", "example", "hello", "www", "good", "x1", "a-b", "-a", "a-", "0", "123", "8", "com", "net", "io", "xn--nxasmq6b",
+	"xn--a", "xn--", "xn--80ak6aa92e", "a_b", "a%b", "a:b", "a/b", "a@b", "a+b", "a b", "A", "Example", "COM", "",
+	strings.Repeat("a", 63), strings.Repeat("a", 64), strings.Repeat("b", 200)}
+var uniLabels = []string{"你好", "后缀", "bücher", "BÜCHER", "straße", "ＡＢＣ", "ｅｘａｍｐｌｅ", "８", "😀", "ß", "İ", "ı", "ǆ", "é", "é", "ك", "א", "日本語", "‍", "a­b", "ª", "Ⅷ", "。", "ａ。ｂ"}
+var tlds = []string{"com", "net", "org", "io", "后缀", "local", "localhost", "internal", "arpa", "LOCAL", "Local", "test", "lan", "COM"}
+
+func label() string {
+	switch rng.Intn(10) {
+	case 0, 1, 2, 3, 4:
+		return hlib.Pick(rng, asciiLabels[:12])
+	case 5, 6:
+		return hlib.Pick(rng, asciiLabels)
+	case 7, 8:
+		return hlib.Pick(rng, uniLabels)
+	default:
+		n := 1 + rng.Intn(6)
+		var b strings.Builder
+		for i := 0; i < n; i++ {
+			b.WriteByte("abcdefghijklmnopqrstuvwxyz0123456789-"[rng.Intn(37)])
+		}
+		return b.String()
+	}
+}
+
+func hostname() string {
+	n := 1 + rng.Intn(4)
+	var ls []string
+	for i := 0; i < n; i++ {
+		ls = append(ls, label())
+	}
+	if rng.Chance(70) {
+		ls = append(ls, hlib.Pick(rng, tlds))
+	}
+	return strings.Join(ls, ".")
+}
+
+var ipPool = []string{"8.8.8.8", "1.1.1.1", "93.184.216.34", "255.255.255.255", "0.0.0.0", "10.0.0.1", "127.0.0.1", "192.168.1.1", "172.16.0.1",
+	"169.254.1.1", "100.64.0.1", "224.0.0.1", "::1", "::", "2001:db8::1", "2606:4700:4700::1111", "fe80::1", "fc00::1", "::ffff:8.8.8.8",
+	"2001:DB8::A", "1:2:3:4:5:6:7:8", "64:ff9b::8.8.8.8"}
+var almostIP = []string{"8.8.8", "8.8.8.8.8", "256.1.1.1", "08.8.8.8", "8.8.8.08", "0x8.8.8.8", "8.8.8.8:80", "[::1]", "[2001:db8::1]:443", "fe80::1%eth0",
+	"8.8.8.8.", ".8.8.8.8", "8.8.8.8.com", "1.2.3.４", "８.８.８.８", "8。8。8。8", "1234", "0", "1.2", "::g", "8.8.8.-8"}
+
+func randIP() string {
+	if rng.Chance(40) {
+		return hlib.Pick(rng, ipPool)
+	}
+	if rng.Chance(70) {
+		return net.IPv4(byte(rng.U64()), byte(rng.U64()), byte(rng.U64()), byte(rng.U64())).String()
+	}
+	return net.IP(rng.Bytes(16)).String()
+}
+
+// insert whitespace (and a few non-whitespace look-alikes) at random positions
+func sprinkle(s string) string {
+	rs := []rune(s)
+	k := rng.Intn(4)
+	for i := 0; i < k; i++ {
+		pos := rng.Intn(len(rs) + 1)
+		c := hlib.Pick(rng, spaces)
+		if rng.Chance(15) {
+			c = hlib.Pick(rng, notSpaces)
+		}
+		rs = append(rs[:pos], append([]rune{c}, rs[pos:]...)...)
+	}
+	return string(rs)
+}
+
+func mutateCase(s string) string {
+	rs := []rune(s)
+	for i := range rs {
+		if rng.Chance(30) {
+			rs[i] = unicode.ToUpper(rs[i])
+		}
+	}
+	return string(rs)
+}
+
+func norm(kind, z string) {
+	out := doNorm(kind, z, false)
+	if out != "" {
+		doNorm("fixpoint", out, true) // idempotence on the real code: the accepted output is fed back
+	}
+}
+
+func genNorm(n int) {
+	for i := 0; i < n; i++ {
+		switch rng.Intn(12) {
+		case 0, 1, 2:
+			norm("hostname", hostname())
+		case 3:
+			norm("hostname+space", sprinkle(hostname()))
+		case 4:
+			norm("hostname+case", sprinkle(mutateCase(hostname())))
+		case 5:
+			h := hostname()
+			switch rng.Intn(4) {
+			case 0:
+				h = "*." + h
+			case 1:
+				h = "*" + h
+			case 2:
+				h = h + ".*"
+			default:
+				p := rng.Intn(len(h) + 1)
+				h = h[:p] + "*" + h[p:]
+			}
+			if !utf8.ValidString(h) {
+				h = "*." + hostname()
+			}
+			norm("wildcard", sprinkle(h))
+		case 6:
+			norm("ip", sprinkle(randIP()))
+		case 7:
+			norm("almost-ip", sprinkle(hlib.Pick(rng, almostIP)))
+		case 8:
+			l := hlib.Pick(rng, []string{"localhost", "LOCALHOST", "LocalHost", "a.localhost", "machine.local", "x.y.LOCAL", "printer.Local", "localhost.",
+				"foo.internal", "a.home.arpa", "local", "localhost.com", "mylocalhost", "a.locals", "localdomain"})
+			if rng.Chance(40) {
+				l = label() + "." + l
+			}
+			norm("local", sprinkle(l))
+		case 9:
+			norm("dots", hlib.Pick(rng, []string{"", ".", "..", "a.", ".a", "a..b", "a.b.", " ", "\t\n", "a .", ". a"})+func() string {
+				if rng.Bool() {
+					return hostname()
+				}
+				return ""
+			}())
+		case 10:
+			norm("bytes", string(rng.Bytes(1+rng.Intn(8)))) // arbitrary bytes incl. invalid UTF-8
+		default:
+			var b strings.Builder
+			k := 1 + rng.Intn(10)
+			for j := 0; j < k; j++ {
+				b.WriteRune(rune(rng.Intn(0x250)))
+			}
+			norm("runes", b.String())
+		}
+	}
+	for _, z := range []string{"hel lo.com", "hello.com", "good.hello.com", "你好.com", "xd.后缀", "你好.后缀", "*.wildcard.com", "*.com", "sup.*.com", "localhost",
+		"machine.localhost", "machine.local", "hello:world.com", "hello%world.com", "8.8.8.8", "8.8. 8.8", "8.8.8.8　"} {
+		norm("fixed", z)
+	}
+	for _, z := range append(append([]string{}, ipPool...), almostIP...) {
+		norm("ip-pool", z)
+	}
+}
+
+func genRS(limit int) {
+	for c := 0; c < limit; c++ {
+		if c >= 0xD800 && c <= 0xDFFF {
+			continue
+		}
+		doRS("a" + string(rune(c)) + "b")
+	}
+	for i := 0; i < 2000; i++ {
+		doRS(sprinkle(sprinkle(hostname())))
+		if i%10 == 0 {
+			doRS(string(rng.Bytes(rng.Intn(10))))
+		}
+	}
+}
+
+var delegations = []string{"acme.example.com", "acme.example.com.", "", ".", "a\\.", "a\\\\.", "a\\\\\\.", "\\.", "d", "委托.example.", "x.y"}
+
+func sha224(t []byte) []byte { h := sha256.Sum224(t); return h[:] }
+
+func doRec(zone, deleg string, tok []byte) {
+	name, content := acme.GenerateCustomRecord(zone, deleg, tok)
+	r.Emit(strings.Join([]string{"rec", runes(zone), runes(deleg), hlib.Hex(tok), hlib.Hex(sha224(tok)), hlib.B(dns.IsFqdn(zone)), hlib.B(dns.IsFqdn(deleg))}, " "),
+		runes(name)+"|"+runes(content))
+	r.Case("rec" + zone + "|" + deleg + "|" + string(tok))
+	r.Count("rec")
+	if hexs := acme.EncodeClientToken(tok); !strings.HasPrefix(content, hexs+".") {
+		r.Raw("# note: content does not start with EncodeClientToken")
+	}
+	n2, c2 := acme.GenerateManagedRecord(zone, deleg)
+	r.Emit(strings.Join([]string{"managed", runes(zone), runes(deleg), hlib.B(dns.IsFqdn(zone)), hlib.B(dns.IsFqdn(deleg))}, " "), runes(n2)+"|"+runes(c2))
+	r.Case("man" + zone + "|" + deleg)
+	r.Count("managed")
+}
+
+func doPair(deleg string, t1, t2 []byte) {
+	_, c1 := acme.GenerateCustomRecord("example.com", deleg, t1)
+	_, c2 := acme.GenerateCustomRecord("example.com", deleg, t2)
+	r.Emit(strings.Join([]string{"pair", runes(deleg), hlib.B(dns.IsFqdn(deleg)), hlib.Hex(t1), hlib.Hex(sha224(t1)), hlib.Hex(t2), hlib.Hex(sha224(t2))}, " "),
+		runes(c1)+"|"+runes(c2))
+	r.Case("pair" + deleg + string(t1) + "|" + string(t2))
+	if string(t1) == string(t2) {
+		r.Count("pair:same-token")
+	} else {
+		r.Count("pair:distinct-tokens")
+	}
+}
+
+func genRec(n int) {
+	for i := 0; i < n; i++ {
+		zone := hostname()
+		if !utf8.ValidString(zone) {
+			zone = "example.com"
+		}
+		if rng.Chance(20) {
+			zone += "."
+		}
+		deleg := hlib.Pick(rng, delegations)
+		tok := rng.Bytes(rng.Intn(70))
+		if rng.Chance(30) { // tokens as the server makes them: a v2 certificate subject
+			tok = []byte("v2:" + strconv.FormatUint(rng.U64()>>16, 10) + ":" + strings.Repeat("A", 43) + "=")
+		}
+		doRec(zone, deleg, tok)
+		// related second token
+		t2 := append([]byte{}, tok...)
+		switch rng.Intn(8) {
+		case 0:
+			// identical
+		case 1:
+			t2 = append(t2, 0)
+		case 2:
+			if len(t2) > 0 {
+				t2 = t2[:len(t2)-1]
+			}
+		case 3:
+			if len(t2) > 0 {
+				t2[rng.Intn(len(t2))] ^= 1 << uint(rng.Intn(8))
+			}
+		case 4:
+			if len(t2) > 0 {
+				t2[len(t2)-1] ^= 1
+			}
+		case 5:
+			if len(t2) > 1 {
+				t2[0], t2[len(t2)-1] = t2[len(t2)-1], t2[0]
+			}
+		case 6:
+			t2 = append([]byte{0}, t2...)
+		default:
+			t2 = rng.Bytes(rng.Intn(70))
+		}
+		doPair(deleg, tok, t2)
+	}
+}
+
+func main() {
+	r = hlib.Start()
+	rng = hlib.NewRng(r.Seed)
+	r.Rule = "rs: every code point (quick < 0x3100, thorough all) between two letters + sprinkled hostnames + raw bytes; " +
+		"norm: hostnames from ASCII/unicode/odd label pools with TLDs, whitespace (all unicode.IsSpace runes + zero-width look-alikes) and case changes, " +
+		"wildcards at every position, IPv4/IPv6 literals (public, private, mapped) and near-misses, local names, dot edge cases, arbitrary bytes/runes, TestNormalize's list; " +
+		"every accepted output is fed back (idempotence); rec/managed/pair: random zones, delegation strings incl. escaped trailing dots, random and related token pairs. non-trivial = distinct op line"
+	if r.Replay != "" {
+		for _, t := range r.ReplayLines() {
+			switch t[0] {
+			case "rs":
+				doRS(unRunes(t[1]))
+			case "norm":
+				doNorm("replay", unRunes(t[1]), len(t) > 9 && t[9] == "fix=true")
+			case "rec":
+				doRec(unRunes(t[1]), unRunes(t[2]), hlib.UnHex(t[3]))
+			case "managed":
+				doRec(unRunes(t[1]), unRunes(t[2]), nil)
+			case "pair":
+				doPair(unRunes(t[1]), hlib.UnHex(t[3]), hlib.UnHex(t[5]))
+			}
+		}
+		r.Finish()
+		return
+	}
+	nn, nr, lim := 20000, 3000, 0x3100
+	if r.Thorough() {
+		nn, nr, lim = 400000, 60000, 0x110000
+	}
+	genRS(lim)
+	genNorm(nn)
+	genRec(nr)
+	r.Finish()
 }
